@@ -37,6 +37,9 @@ func runC19(c *Ctx) {
 	// API filled at registration are keyed by
 	ruleContentTypeAccessorParses(c, "R19.2")
 	ruleUntypedGateForEveryBody(c, "R19.2")
+	// the defaults the router adds to every route's lists are the API's own, each from its own field (validation judged
+	// DefaultConsumes against the consumers and DefaultProduces against the producers)
+	ruleRoutableAPIDelegates(c, "R19.2", "DefaultConsumes", "DefaultProduces", "ConsumersFor", "ProducersFor")
 	// the routing tables are built when the HANDLER is built (NewRouter), i.e. after the registrations Validate() judged:
 	// nothing builds them earlier (a context created before the last RegisterConsumer/Producer/Auth would serve with
 	// tables that lack them)
